@@ -27,11 +27,11 @@ using booster::ptime;
 struct HRec {
 	std::string kind; int count = 0; int thread = -2; int64_t t_us = 0; int code = 0; std::string cat; size_t n = 0;
 	int64_t deadline_us = -1; int fd = -1; int dir = 0; uint64_t armed_seq = 0; size_t readable_at_call = 0; bool posted_after_stop = false; bool cancel_ok = false; bool threw = false;
-	size_t want = 0; std::string data;
+	size_t want = 0; std::string data; bool aba = false;   // aba: wait on a descriptor whose number was re-used while the cancel of the previous device was still deferred (known finding)
 };
 struct World {
 	std::vector<HRec> h; int live_functors = 0; int loop_thread = -1; bool stop_called = false; bool pair_starved = false; int pair_waits = 0; int loop_restarts = 0;
-	std::map<std::pair<int,int>,bool> armed; std::set<int> xcancelled_fds; std::vector<std::pair<int,uint64_t>> xcancels; uint64_t evseq = 0;
+	int dev_cycles = 0, dev_reused = 0, dev_stale = 0; std::map<int,int> stale_fd;   /* descriptor number -> handler of the device closed by a non-loop thread whose cancel the loop may not have applied yet */ std::map<std::pair<int,int>,bool> armed; std::set<int> xcancelled_fds; std::vector<std::pair<int,uint64_t>> xcancels; uint64_t evseq = 0;
 	int add(const std::string &k){ simk::TsanIgnore ign; h.emplace_back(); h.back().kind = k; return (int)h.size()-1; }
 };
 World *W = nullptr;
@@ -97,7 +97,8 @@ struct E6 : Engine {
 				else if(x < 70 && npairs){ o["op"] = "io"; o["p"] = (int)r.below(npairs); o["dir"] = r.below(4) == 0 ? 1 : 0; }
 				else if(x < 78 && npairs){ o["op"] = xthread ? "xcancel_io" : "cancel_io"; o["p"] = (int)r.below(npairs); }
 				else if(x < 90 && npairs){ o["op"] = "ready"; o["p"] = (int)r.below(npairs); o["n"] = 1 + (int)r.below(50); }
-				else if(x < 96){ o["op"] = "sleep"; o["ms"] = (int)r.below(25); }
+				else if(x < 93){ o["op"] = "sleep"; o["ms"] = (int)r.below(25); }
+				else if(x < 97){ o["op"] = "dev"; o["early"] = (int)r.below(3); o["dir2"] = (int)r.below(2); o["gap"] = (int)r.below(3); o["settle"] = (int)(r.below(3) != 0); }   // a device owned by this thread: armed, closed by this thread, then a new device on the re-used descriptor number
 				else { o["op"] = "yield"; }
 				ops.push(o); }
 			th.push(ops); }
@@ -230,6 +231,39 @@ struct E6 : Engine {
 					else if(op == "xcancel_io" && npairs){ w.xcancelled_fds.insert(pairs[p].first); w.xcancels.push_back({pairs[p].first,++w.evseq}); srv.cancel_io_events(pairs[p].first); }             // directly from this foreign thread
 					else if(op == "ready" && npairs){ std::string d((size_t)std::max<int64_t>(1,std::min<int64_t>(o.geti("n",1),4000)),'r'); (void)!::write(pairs[p].second,d.data(),d.size()); }
 					else if(op == "sleep"){ simk::sleep_us(std::max<int64_t>(0,std::min<int64_t>(o.geti("ms"),100000))*1000); }
+					else if(op == "dev" && !stop_race){
+						// A device is not thread safe but may be used by one thread at a time, also by a thread that is not the loop thread (cppcms's worker threads close
+						// connections that have a disconnect-detection wait armed). close() = cancel_io_events() + ::close(): when the loop is polling the cancel is deferred
+						// and reaches the reactor after the descriptor is gone; the next socket gets the same number. Its waits must work like any other's.
+						auto sentinel = [&]{ int sn = w.add("post"); srv.post(Fn(sn)); return simk::block([&w,sn]{ return w.h[sn].count > 0; },simk::now_us()+3600LL*1000000,"dev-sentinel"); };
+						// descriptor numbers are process wide: a number is "stale" from the close() of a device with an armed wait until the closing thread has seen the loop drain its queue
+						auto tfail = [&](const std::string &c,const std::string &m,const std::string &f = std::string()){ simk::TsanIgnore ign; res.fail(c,m,f); };
+						auto hwrite = [](int fd,const char *c){ for(int k=0;k<1000;k++){ if(::write(fd,c,1) == 1) return; if(errno != EINTR && errno != EAGAIN) return; } };   // the harness's own writes retry injected EINTR / EAGAIN
+						auto stale_hit = [&](int a,int b){ bool hit = false; for(int fd:{a,b}){ auto it = w.stale_fd.find(fd); if(it != w.stale_fd.end()){ w.h[it->second].aba = true; hit = true; } } return hit; };
+						int sv[2]; if(socketpair(AF_UNIX,SOCK_STREAM,0,sv) != 0) continue; fcntl(sv[1],F_SETFL,O_NONBLOCK); int dev_h1 = -1, dev_h2 = -1; bool stale1 = stale_hit(sv[0],sv[1]);
+						{ aio::stream_socket s1(srv); s1.assign(sv[0]); s1.set_non_blocking(true);
+						  int h1 = w.add("dev_in"); w.h[h1].aba = stale1; s1.on_readable(Fn(h1));
+						  if(!sentinel()){ tfail("handler-never-invoked","a posted handler was never invoked by a running loop"); booster::system::error_code e; s1.close(e); ::close(sv[1]); break; }   // the wait is registered now (the queue is first-in first-out)
+						  int early = (int)o.geti("early"); if(early == 1) hwrite(sv[1],"x");   // the event may happen right before the close: success or cancellation, once
+						  if(early == 2) simk::sleep_us(2000);   // let the loop go back to polling
+						  w.stale_fd[sv[0]] = h1; booster::system::error_code e; s1.close(e); ::close(sv[1]); w.h[h1].want = early == 1 ? 1 : 0; dev_h1 = h1; }
+						// settle: the thread waits until the loop has applied the (possibly deferred) cancel before it opens the next descriptor. Without that the number is
+						// re-used while the loop still holds the old registration - an ABA problem of io_service's deferred cancel, recorded as a known finding.
+						bool settle = o.geti("settle",1) != 0; auto unstale = [&]{ auto it = w.stale_fd.find(sv[0]); if(it != w.stale_fd.end() && it->second == dev_h1) w.stale_fd.erase(it); };
+						if(settle){ if(!sentinel()){ tfail("handler-never-invoked","a posted handler was never invoked by a running loop"); break; } unstale(); }
+						for(int g=0;g<(int)o.geti("gap");g++) simk::yield();
+						int sw[2]; if(socketpair(AF_UNIX,SOCK_STREAM,0,sw) != 0) continue; fcntl(sw[1],F_SETFL,O_NONBLOCK); bool stale2 = stale_hit(sw[0],sw[1]);
+						{ aio::stream_socket s2(srv); s2.assign(sw[0]); s2.set_non_blocking(true); bool out = o.geti("dir2") != 0;
+						  int h2 = w.add(out ? "dev_out2" : "dev_in2"); w.h[h2].aba = stale2; if(out) s2.on_writeable(Fn(h2)); else { s2.on_readable(Fn(h2)); hwrite(sw[1],"y"); }
+						  bool got = simk::block([&w,h2]{ return w.h[h2].count > 0; },simk::now_us()+60LL*1000000,"dev-wait");
+						  if(!got && res.ok) tfail(!stale2 ? "io-wait-lost-after-device-close" : "reused-descriptor:io-wait-lost",std::string(out ? "writable" : "readable") + " wait on descriptor " + std::to_string(sw[0]) + " (number re-used after a device was closed by a non-loop thread" + (!stale2 ? " and the loop had processed everything queued before" : " while its cancel was still deferred") + "; first device had " + std::to_string(sv[0]) + ") was not completed within 60 simulated seconds although the event had happened",!stale2 ? "" : "descriptor-reused-before-deferred-cancel");
+						  if(stale2 || stale1){ simk::TsanIgnore ign; w.dev_stale++; }
+
+						  // closing a device that has no wait armed can still leave a deferred canceler behind (cancel_io_events() queues one whenever the dispatch queue is not empty)
+						  w.stale_fd[sw[0]] = h2; booster::system::error_code e; s2.close(e); ::close(sw[1]); dev_h2 = h2; { simk::TsanIgnore ign; w.dev_cycles++; if(sw[0] == sv[0]) w.dev_reused++; } }
+						// the numbers stop being stale once this thread has seen the loop drain its queue
+						if(sentinel()){ unstale(); auto it = w.stale_fd.find(sw[0]); if(it != w.stale_fd.end() && it->second == dev_h2) w.stale_fd.erase(it); }
+					}
 					else simk::yield();
 				} });
 			if(stop_race){ w.stop_called = true; srv.stop(); }
@@ -238,7 +272,9 @@ struct E6 : Engine {
 				auto outstanding = [&](bool io_too){ std::string m; for(size_t i=0;i<w.h.size();i++){ HRec &r = w.h[i]; if(r.count) continue; if(!io_too && (r.kind == "io_in" || r.kind == "io_out" || r.kind == "aread" || r.kind == "awrite")) continue; m += " " + r.kind + "#" + std::to_string(i); } return m; };
 				auto roundtrip = [&]{ int s = w.add("post"); srv.post(Fn(s)); return simk::block([&w,s]{ return w.h[s].count > 0; },simk::now_us()+2*3600LL*1000000,"wait-sentinel"); };
 				// posts and timers complete by themselves; descriptor waits and socket operations may need a cancel to end
-				bool done = simk::block([&]{ for(auto &r:w.h){ if(r.count) continue; if(r.kind == "io_in" || r.kind == "io_out" || r.kind == "aread" || r.kind == "awrite") continue; return false; } return true; },simk::now_us()+2*3600LL*1000000,"wait-handlers");
+				{ bool aba_done = simk::block([&]{ for(auto &r:w.h) if(r.aba && !r.count) return false; return true; },simk::now_us()+120LL*1000000,"wait-aba-handlers");
+				  if(!aba_done){ std::string m; for(size_t i=0;i<w.h.size();i++) if(w.h[i].aba && !w.h[i].count) m += " " + w.h[i].kind + "#" + std::to_string(i); res.fail("reused-descriptor:handler-never-invoked","never invoked:" + m + " (descriptor number re-used while the cancel of the closed device was still deferred)","descriptor-reused-before-deferred-cancel"); } }
+				bool done = simk::block([&]{ for(auto &r:w.h){ if(r.count || r.aba) continue; if(r.kind == "io_in" || r.kind == "io_out" || r.kind == "aread" || r.kind == "awrite") continue; return false; } return true; },simk::now_us()+2*3600LL*1000000,"wait-handlers");
 				if(!done) res.fail("handler-never-invoked","loop kept running but these handlers were never invoked:" + outstanding(false));
 				env.join();
 				if(res.ok && !roundtrip()) res.fail("handler-never-invoked","a posted handler was never invoked by a running loop");
@@ -261,8 +297,11 @@ struct E6 : Engine {
 			for(auto &ch:chains){ ch->timer.reset(); ch->canceler.reset(); if(ch->sock){ booster::system::error_code e; ch->sock->close(e); } if(ch->peer >= 0 && !ch->peer_closed) ::close(ch->peer); }
 			for(auto &pr:pairs){ ::close(pr.first); ::close(pr.second); }
 		}
-		res.counters["run_restarted_after_handler_exception"] = w.loop_restarts;
+		res.counters["run_restarted_after_handler_exception"] = w.loop_restarts; res.counters["dev_cycles"] = w.dev_cycles; res.counters["dev_descriptor_reused"] = w.dev_reused; res.counters["dev_cycles_on_stale_number"] = w.dev_stale;
 		int n_ok = 0, n_cancel = 0;
+		if(!stop_race) for(size_t i=0;i<w.h.size();i++){ HRec &r = w.h[i]; if(!r.aba) continue; std::string nm = r.kind + "#" + std::to_string(i); std::string bad;
+			if(r.count != 1) bad = "was invoked " + std::to_string(r.count) + " times"; else if(r.kind == "dev_in" ? (r.code == 0 && r.want == 0) : r.code != 0) bad = r.kind == "dev_in" ? "reported readable although its device was closed and its peer never wrote" : "got error " + std::to_string(r.code) + "/" + r.cat + " although its device was never cancelled and the event had happened";
+			if(!bad.empty()) res.fail("reused-descriptor:" + std::string(r.count == 0 ? "handler-never-invoked" : r.count > 1 ? "handler-ran-twice" : r.kind == "dev_in" ? "success-without-event" : "spurious-error"),nm + " " + bad + " (descriptor number re-used while the cancel of the closed device was still deferred)","descriptor-reused-before-deferred-cancel"); }
 		for(size_t i=0;i<w.h.size();i++){ HRec &r = w.h[i]; std::string nm = r.kind + "#" + std::to_string(i);
 			if(r.count > 1){ res.fail("handler-ran-twice",nm + " was invoked " + std::to_string(r.count) + " times"); continue; }
 			if(r.count == 0){ if(!stop_race && res.ok) res.fail("handler-never-invoked",nm + " was never invoked"); continue; }
@@ -276,6 +315,8 @@ struct E6 : Engine {
 			if(r.kind == "io_in" && r.code == 0 && r.readable_at_call == 0) res.fail("io-success-without-event",nm + " reported readable but nothing was there");
 			if((r.kind == "io_in" || r.kind == "io_out") && r.code != 0 && !canceled && !(r.cat == aio::aio_error_cat.name() && r.code == aio::aio_error::select_failed)) res.fail("unexpected-error-code",nm + " got error " + std::to_string(r.code) + "/" + r.cat);
 			if(r.kind == "post" && r.code != 0) res.fail("unexpected-error-code",nm + " got an error code");
+			if((r.kind == "dev_in2" || r.kind == "dev_out2") && r.code != 0) res.fail("unexpected-error-code",nm + " (wait on a fresh device whose event had happened) got error " + std::to_string(r.code) + "/" + r.cat);
+			if(r.kind == "dev_in" && r.code == 0 && r.want == 0) res.fail("io-success-without-event",nm + " reported readable but the peer never wrote");
 		}
 		for(auto &ch:chains){ if(ch->hid < 0) continue; HRec &r = w.h[ch->hid]; if(!r.count) continue;
 			if(ch->kind == "read"){
